@@ -56,6 +56,9 @@ Outer(h) == {
   \* a free name read after a construct that binds the same name locally (the local binding must be gone)
   Lst(<<Some(<<It("x", h)>>, Bin("gt", X, One)), X>>), Lst(<<Every(<<It("x", h)>>, Bin("gt", X, One)), X>>),
   Lst(<<For(<<It("x", h)>>, X), X>>), Lst(<<Cx(<<En("x", h)>>), X>>), Lst(<<Path(Cx(<<En("x", h)>>), "x"), X, Y>>),
+  \* a local binding whose value is null hides an outer binding of the same name (context entry, parameter, loop variable)
+  Path(Cx(<<En("x", h), En("r", Lst(<<X, Y>>))>>), "r"), Cx(<<En("y", h), En("r", Bin("add", X, Y))>>),
+  Call(Fn(<<"x">>, Lst(<<X, Y>>)), <<h>>), For(<<It("x", h)>>, Lst(<<X, Y>>)), Flt(Lst(<<Cx(<<En("x", h)>>)>>), Bin("eq", X, Nu)),
   \* equality of composite values whose members are null for different reasons
   Bin("eq", Cx(<<En("a", h), En("b", One)>>), Cx(<<En("a", Nu), En("b", One)>>)), Bin("eq", Lst(<<h, One>>), Lst(<<Nu, One>>)),
   Call(Fn(<<"u">>, Lst(<<U, h>>)), <<X>>),
@@ -77,7 +80,7 @@ Inner == Leaves \cup {
   Bin("add", X, Y), Bin("mul", X, Two), Bin("div", X, Y), Bin("sub", Y, X), Neg(X), Bin("eq", X, Y), Bin("lt", X, Y),
   Bin("and", X, Y), Bin("or", X, Y), If(X, One, Two), Btw(X, One, Three), Bin("in", X, Rng(One, TRUE, Two, TRUE)),
   Bin("in", X, EL(<<[n |-> "utlt", a |-> Two], S("a", <<97>>)>>)),
-  Lst(<<X, Y>>), Lst(<<>>), Lst(<<Lst(<<One>>)>>), Cx(<<En("a", X)>>), Cx(<<En("a", One), En("b", Bin("add", Nm("a"), One))>>),
+  Lst(<<X, Y>>), Lst(<<>>), Lst(<<Lst(<<One>>)>>), Lst(<<Nu, One>>), Cx(<<En("a", X)>>), Cx(<<En("a", One), En("b", Bin("add", Nm("a"), One))>>),
   Path(C, "a"), Path(XS, "a"), Flt(XS, One), Flt(XS, Neg(One)), Flt(XS, Three), Flt(XS, Bin("gt", Item, One)), Flt(XS, Bin("eq", Path(Item, "a"), One)),
   Flt(XS, Bin("eq", Nm("a"), One)),
   For(<<It("i", XS)>>, Iv), For(<<It("i", XS), It("j", Lst(<<One, Two>>))>>, Lst(<<Iv, Jv>>)), For(<<Ir("i", Three, One)>>, Iv),
@@ -91,6 +94,28 @@ Inner == Leaves \cup {
   Call(Fn(<<"u", "y">>, Lst(<<U, Y>>)), <<X>>), Call(Fn(<<"y", "u">>, Lst(<<U, Y>>)), <<X>>),
   For(<<Ir("i", One, Three)>>, If(Bin("eq", Iv, One), One, Bin("mul", Flt(Nm("partial"), Neg(One)), Iv))),
   For(<<Ir("i", One, Three)>>, For(<<It("p", Nm("partial"))>>, Nm("p"))) }
+
+\* Translation invariance: expressions over the names lo and hi in which a range of integers lo..hi is walked and every
+\* value taken from it is used relative to lo or hi.  The harness evaluates them for small lo, hi (FeelEval decides the
+\* value) and again with both names moved by the same large amount (beyond 2^31, 2^32, 2^53): the value must not change
+\* (Trace_C01!ShiftLaw) - numbers that TLC's integers cannot hold are reached through the law, not through Eval.
+LO == Nm("lo")  HI == Nm("hi")
+RangeLoHi == For(<<Ir("i", LO, HI)>>, Iv)
+ShiftExprs == {
+  For(<<Ir("i", LO, HI)>>, Bin("sub", Iv, LO)), For(<<Ir("i", HI, LO)>>, Bin("sub", Iv, LO)), For(<<Ir("i", LO, HI)>>, Bin("sub", HI, Iv)),
+  For(<<Ir("i", LO, HI), It("j", Lst(<<One, Two>>))>>, Bin("add", Bin("mul", Bin("sub", Iv, LO), I("10", 10)), Jv)),
+  For(<<It("j", Lst(<<One, Two>>)), Ir("i", HI, LO)>>, Bin("add", Bin("mul", Bin("sub", Iv, LO), I("10", 10)), Jv)),
+  Bin("sub", Flt(RangeLoHi, Two), LO), Bin("sub", Flt(RangeLoHi, Neg(One)), HI),
+  For(<<It("k", RangeLoHi)>>, Bin("sub", Nm("k"), LO)),
+  Some(<<It("k", RangeLoHi)>>, Bin("eq", Nm("k"), HI)), Every(<<It("k", RangeLoHi)>>, Bin("ge", Nm("k"), LO)),
+  Every(<<It("k", RangeLoHi)>>, Bin("lt", Nm("k"), HI)),
+  Flt(For(<<Ir("i", LO, HI)>>, Bin("sub", Iv, LO)), Bin("gt", Item, One)),
+  Bin("in", Bin("add", LO, One), Rng(LO, FALSE, HI, TRUE)), Btw(Bin("add", LO, One), LO, HI), Bin("in", HI, Rng(LO, TRUE, HI, FALSE)),
+  Call(Fn(<<"u">>, Bin("sub", U, LO)), <<HI>>),
+  Path(Cx(<<En("d", Bin("sub", HI, LO)), En("r", For(<<Ir("i", LO, HI)>>, Lst(<<Bin("sub", Iv, LO), Nm("d")>>)))>>), "r"),
+  For(<<Ir("i", LO, HI)>>, If(Bin("eq", Iv, LO), Zero, Bin("add", Flt(Nm("partial"), Neg(One)), One))),
+  Bin("eq", RangeLoHi, Lst(<<LO, Bin("add", LO, One), Bin("add", LO, Two), HI>>)) }
+
 
 ExprsQ == Inner \cup UNION {Outer(h) : h \in Inner}
 Exprs  == IF Deep THEN ExprsQ \cup UNION {Outer(g) : g \in UNION {Outer(h) : h \in {X, XS, C, Lst(<<X, Y>>), Bin("add", X, Y), Flt(XS, Bin("gt", Item, One)), For(<<It("i", XS)>>, Iv)}}} ELSE ExprsQ
@@ -112,8 +137,13 @@ Scopes == <<
   VC(<<B("x", VL(<<VN(1, 0), VN(2, 0)>>)), B("y", VC(<<B("a", VN(1, 0))>>)), B("xs", VL(<<VC(<<B("a", VN(1, 0))>>), VC(<<B("a", VN(2, 0))>>), VC(<<B("b", VN(3, 0))>>)>>)), B("c", VN(7, 0)), B("item", VN(5, 0))>>)
 >>
 
+ShiftScopes == << VC(<<B("lo", VN(1, 0)), B("hi", VN(4, 0))>>), VC(<<B("lo", VN(0 - 2, 0)), B("hi", VN(1, 0))>>),
+                  VC(<<B("lo", VN(4, 0)), B("hi", VN(1, 0))>>), VC(<<B("lo", VN(0, 0)), B("hi", VN(0, 0))>>) >>
+
 ASSUME \A t \in Exprs : PrintT(<<"EXPR", ToJson([tree |-> t, full |-> RenderFull(t)])>>)
 ASSUME PrintT(<<"SCOPES", ToJson(Scopes)>>)
+ASSUME \A t \in ShiftExprs : PrintT(<<"SHIFT", ToJson([tree |-> t, full |-> RenderFull(t)])>>)
+ASSUME PrintT(<<"SHIFTSCOPES", ToJson(ShiftScopes)>>)
 ASSUME PrintT(<<"COUNT", Cardinality(Exprs)>>)
 VARIABLE v
 Init == v = 0
